@@ -43,7 +43,8 @@ def cases(draw, tier):
   return {'model': mspec, 'recipe': recipe, 'calib_seeds': [draw(st.integers(0, 99))],
           'test_seeds': [draw(st.integers(0, 999)) for _ in range(draw(st.integers(1, 3)))],
           'metric': draw(st.sampled_from(['mse', 'median_diff_ratio'])),
-          'self_compare': draw(st.integers(0, 3)) == 0}
+          'self_compare': draw(st.integers(0, 3)) == 0,
+          'ref_kernel': draw(st.integers(0, 3)) == 0}
 
 
 def sanitize(a):
@@ -62,12 +63,12 @@ def metric(name, target, ref):
   return float(np.median(np.abs(a - b) / (np.abs(b) + 1e-6)))
 
 
-def own_comparison(ref_bytes, tgt_bytes, mspec, si, samples, metric_name):
+def own_comparison(ref_bytes, tgt_bytes, mspec, si, samples, metric_name, ref_kernel=False):
   """name -> mean metric over samples, from the check's own interpreter runs."""
   sg = mspec['subgraphs'][si]
   acc = {}
   for ins in samples:
-    it_r, it_t = interp.make(ref_bytes), interp.make(tgt_bytes)
+    it_r, it_t = interp.make(ref_bytes, ref_kernel), interp.make(tgt_bytes, ref_kernel)
     _, rr = interp.run_signature(it_r, sg['sig'], ins)
     runner_t = it_t.get_signature_runner(sg['sig'])
     det = runner_t.get_input_details()
@@ -103,21 +104,24 @@ def check_case(case):
     interp.make(out.qbytes)
   except Exception:  # pylint: disable=broad-except
     return core.result(False, labels + ['interpreter_refuses(C01)'])
+  rk = bool(case.get('ref_kernel'))
+  if rk:
+    labels.append('use_reference_kernel')
   tgt = out.model_bytes if case['self_compare'] else out.qbytes
   if case['self_compare']:
     labels.append('self_compare')
     call = lambda: model_validator.compare_model(
         out.model_bytes, out.model_bytes, copy.deepcopy(test), case['metric'],
-        validation_utils.get_validation_func(case['metric']))
+        validation_utils.get_validation_func(case['metric']), rk)
   else:
-    call = lambda: out.qt.validate(copy.deepcopy(test), case['metric'])
+    call = lambda: out.qt.validate(copy.deepcopy(test), case['metric'], rk)
   ok, res = core.call(call)
   if not ok:
     # invoking the quantized model may legitimately fail (C01's subject); a
     # failure inside the comparison itself is ours
     try:
       for si, sg in enumerate(mspec['subgraphs']):
-        own_comparison(out.model_bytes, tgt, mspec, si, test[sg['sig']][:1], case['metric'])
+        own_comparison(out.model_bytes, tgt, mspec, si, test[sg['sig']][:1], case['metric'], rk)
     except Exception:  # pylint: disable=broad-except
       return core.result(False, labels + ['model_not_invokable(C01)'])
     raise Violation('validate_raises:' + core.exc_bucket(res), repr(res)[:500])
@@ -131,7 +135,7 @@ def check_case(case):
     r = res.get_signature_comparison_result(key)
     groups = {'inputs': r.input_tensors, 'outputs': r.output_tensors,
               'constants': r.constant_tensors, 'intermediates': r.intermediate_tensors}
-    want = own_comparison(out.model_bytes, tgt, mspec, si, test[key], case['metric'])
+    want = own_comparison(out.model_bytes, tgt, mspec, si, test[key], case['metric'], rk)
     # the property is about the tensors of the two MODELS; temporaries the
     # interpreter creates at prepare time (e.g. BatchMatMul_scratch_buffer) hold
     # uninitialised data and are outside it
